@@ -120,6 +120,8 @@ def check(model: Model, run: Run) -> None:
     from ..readerrules import receive_anchor
     fi = receive_anchor(model)
     lemma_no_consume_on_failure(model, run, "C02")
+    from ..readerrules import lemma_consuming_methods_advance
+    lemma_consuming_methods_advance(model, run)
     lemma_no_silent_clamp(model, run, mr)
     lemma_reader_truth(model, run)
     incomplete_is_only_waited_for(model, run, mr)
